@@ -10,6 +10,7 @@ CONSTANTS
   MODFIX = FALSE
   COLFIX = TRUE
   WVFIX = TRUE
+  NTRYFIX = TRUE
   MAXIT = 10
 INVARIANT SameLattice
 INVARIANT RightHanded
@@ -21,6 +22,7 @@ INVARIANT IndexRow
 INVARIANT IndexCol
 INVARIANT ScoreLaw
 INVARIANT FindLatticeOK
+INVARIANT FindLatticeAnyDir
 INVARIANT MinkSane
 INVARIANT Emit
 PROPERTY Variant
